@@ -319,8 +319,10 @@ namespace {
         if ( cfg.dhp ) { counts.push_back( 255 ); counts.push_back( 256 ); counts.push_back( 257 ); counts.push_back( 700 ); }
         unsigned hz = cfg.dhp ? 8 : cfg.hazards;
         for ( size_t n : counts ) {
-            // patterns of protection: none, first only, all but one (bounded by hazard count), last only
-            for ( int pat = 0; pat < 4; ++pat ) {
+            // patterns of protection: none, first only, all but one (bounded by hazard count), last only;
+            // DHP (unbounded guards) with a full retired block: 4 = four fifths protected, 5 = all but the last, 6 = all
+            // (a pass that frees less than a quarter of a full array makes DHP extend the array)
+            for ( int pat = 0; pat < ( cfg.dhp && n >= 255 ? 7 : 4 ); ++pat ) {
                 std::vector<Obj*> objs;
                 for ( size_t i = 0; i < n; ++i ) { Obj* o = alloc_obj(); if ( !o ) return; objs.push_back( o ); }
                 std::vector<uint32_t> ids;
@@ -329,8 +331,11 @@ namespace {
                 if ( pat == 1 ) prot[0] = 1;
                 else if ( pat == 2 ) { for ( size_t i = 0; i + 1 < n && i < hz; ++i ) prot[i] = 1; }
                 else if ( pat == 3 ) prot[n - 1] = 1;
+                else if ( pat == 4 ) { for ( size_t i = 0; i < n - n / 5; ++i ) prot[i] = 1; }
+                else if ( pat == 5 ) { for ( size_t i = 0; i + 1 < n; ++i ) prot[i] = 1; }
+                else if ( pat == 6 ) { for ( size_t i = 0; i < n; ++i ) prot[i] = 1; }
                 size_t nprot = 0; for ( char c : prot ) nprot += c;
-                if ( nprot > hz ) continue;
+                if ( pat < 4 && nprot > hz ) continue;
                 {
                     std::unique_ptr<Guard[]> guards( nprot ? new Guard[nprot] : nullptr );
                     size_t gi = 0;
@@ -377,6 +382,63 @@ namespace {
                 if ( ps3.need_sample( 3 ))
                     ps3.add_sample( "{\"variant\":" + jstr( run.variant ) + ",\"case\":\"eager clause\",\"retired\":" + std::to_string( n ) + ",\"protected\":" + std::to_string( nprot )
                                     + ",\"pattern\":" + std::to_string( pat ) + ",\"result\":\"unguarded disposed by scan(), guarded kept until released\"}", 3 );
+            }
+        }
+    }
+
+    // DHP only: a thread whose retired array has grown to several blocks detaches while another thread still guards some of its retired
+    // objects (the record keeps them, the empty blocks are given back), the record is re-used by the next thread to attach, and that thread
+    // fills the array again while everything in it is guarded. Every object must still be disposed exactly once.
+    void dhp_record_reuse_clause( Run& run )
+    {
+        typedef cds::gc::DHP GC;
+        PropStats& ps3 = prop( "C03" );
+        const size_t N1 = 540, KEEP = 100, N2 = 300;
+        std::vector<Obj*> a, b;
+        for ( size_t i = 0; i < N1; ++i ) { Obj* o = alloc_obj(); if ( !o ) return; a.push_back( o ); }
+        for ( size_t i = 0; i < N2; ++i ) { Obj* o = alloc_obj(); if ( !o ) return; b.push_back( o ); }
+        std::vector<uint32_t> ids;
+        for ( Obj* o : a ) ids.push_back( o->id());
+        for ( Obj* o : b ) ids.push_back( o->id());
+        Barrier bar( 2 );
+        std::thread helper( [&]() {
+            cds::threading::Manager::attachThread();
+            {
+                std::unique_ptr<GC::Guard[]> ga( new GC::Guard[N1] );
+                for ( size_t i = 0; i < N1; ++i ) ga[i].assign( a[i] );
+                bar.wait();     // 1: a[] guarded
+                bar.wait();     // 2: main has retired a[]
+                for ( size_t i = KEEP; i < N1; ++i ) ga[i].clear();
+                std::unique_ptr<GC::Guard[]> gb( new GC::Guard[N2] );
+                for ( size_t i = 0; i < N2; ++i ) gb[i].assign( b[i] );
+                bar.wait();     // 3: only a[0..KEEP) and b[] guarded
+                bar.wait();     // 4: main has detached, re-attached and retired b[]
+            }
+            cds::threading::Manager::detachThread();
+        } );
+        auto retire = [&run]( Obj* o ) {
+            run.ledger[o->id()].retired.store( 1 );
+            o->state.store( ST_RETIRED );
+            run.retires.fetch_add( 1 );
+            GC::retire( o, dispose_fn );
+        };
+        bar.wait();             // 1
+        for ( Obj* o : a ) retire( o );     // nothing can be freed: the array grows to three blocks
+        bar.wait();             // 2
+        bar.wait();             // 3
+        cds::threading::Manager::detachThread();    // frees a[KEEP..), keeps the first block, gives the others back
+        cds::threading::Manager::attachThread();    // re-uses the record
+        for ( Obj* o : b ) retire( o );     // fills the kept block and goes on; everything in it is guarded
+        bar.wait();             // 4
+        helper.join();
+        GC::scan();
+        ps3.evaluations.fetch_add( 1 ); ps3.operations.fetch_add( N1 + N2 + 3 ); ps3.nontrivial.fetch_add( 1 );
+        ps3.add_fp( mix64( std::hash<std::string>()( run.variant )) ^ 0x7e05eULL );
+        for ( size_t i = 0; i < ids.size(); ++i ) {
+            if ( run.ledger[ids[i]].disposed.load() != 1 ) {
+                violation( "C03", "dhp-record-reuse-not-disposed-once:" + run.variant,
+                           "object #" + std::to_string( i ) + " retired around a detach/re-attach of its thread record was disposed " + std::to_string( run.ledger[ids[i]].disposed.load()) + " times after all guards were released and scan() ran" );
+                break;
             }
         }
     }
@@ -446,6 +508,7 @@ namespace {
         ctl.construct( cfg );
         cds::threading::Manager::attachThread();
         eager_clause<GC>( cfg, run, ctl.cap );
+        if ( cfg.dhp && violation_total() == 0 ) dhp_record_reuse_clause( run );
         uint64_t retired_eager = run.retires.load();
         bool eager_failed = violation_total() != 0;
 
